@@ -40,16 +40,21 @@ def run_case(acc, case):
     if case['kind'] == 'oversize':
         length = pages * 1024 + case['extra']
         fw = bytes([0x5a]) * length
-        dev = dfusim.Device(variant, pattern_seed=3)
-        r = dfusim.run(fw, dev, via_fifo=case.get('fifo', False))
-        acc['ntkeys'].add(core.ckey('over', variant, case['extra'], case.get('fifo')))
-        acc['ctr']['oversize_runs'] += 1
-        if dev.dnloads or bytes(dev.flash) != dev.initial:
-            core.add_viol(acc, 'firmware of %d bytes for a %d-byte flash: %d DNLOAD requests were sent (first %r)' % (
-                length, pages * 1024, dev.dnloads, next((e for e in dev.log if e[1] == 'DNLOAD'), None)), case, {})
-        if r.code == 0 or r.done_printed:
-            core.add_viol(acc, 'oversize firmware (%d bytes > %d): exit status %r, done printed: %s' % (length, pages * 1024, r.code, r.done_printed), case,
-                          {'stdout_tail': r.stdout[-200:]})
+        # the same source as `python -O` runs it (assert statements removed) as well: a refusal must not hang on an assert
+        for optimize in (False, True):
+            dev = dfusim.Device(variant, pattern_seed=3)
+            r = dfusim.run(fw, dev, via_fifo=case.get('fifo', False), optimize=optimize)
+            acc['ntkeys'].add(core.ckey('over', variant, case['extra'], case.get('fifo'), optimize))
+            acc['ctr']['oversize_runs'] += 1
+            acc['ctr']['oversize_runs_without_asserts'] += optimize
+            acc['n'] += optimize
+            mode = ' (python -O)' if optimize else ''
+            if dev.dnloads or bytes(dev.flash) != dev.initial:
+                core.add_viol(acc, 'firmware of %d bytes for a %d-byte flash%s: %d DNLOAD requests were sent (first %r)' % (
+                    length, pages * 1024, mode, dev.dnloads, next((e for e in dev.log if e[1] == 'DNLOAD'), None)), case, {})
+            if r.code == 0 or r.done_printed:
+                core.add_viol(acc, 'oversize firmware (%d bytes > %d)%s: exit status %r, done printed: %s' % (length, pages * 1024, mode, r.code, r.done_printed), case,
+                              {'stdout_tail': r.stdout[-200:]})
         return
     npages = case['npages']
     length = npages * 1024 - case.get('short', 0)
@@ -59,7 +64,9 @@ def run_case(acc, case):
     errors = {int(k): s for k, s in case['inject']}
     dev = dfusim.Device(variant, pattern_seed=5, errors=errors, stall_in_error=case['stall'], error_state=dfusim.DNLOAD_IDLE if case.get('idle_state') else dfusim.ERROR,
                         default_busy=[rng.choice([0, 1, 50])] * rng.choice([0, 1, 2]))
-    r = dfusim.run(fw, dev)
+    optimize = rng.random() < 0.3
+    acc['ctr']['fault_runs_without_asserts'] += optimize
+    r = dfusim.run(fw, dev, optimize=optimize)
     # operation index -> step name for the message: npages erases, then (set-address, write) per page
     def step(k):  # noqa
         if k < npages:
